@@ -20,9 +20,13 @@ PARTIAL = [
     "the returned plan is within 2*(1/2+2^-24)*totalDemand/factor <= 2*totalDemand*(3/4)*(4*nbSinks*maxVal/INT_MAX) of every feasible "
     "plan (theorem float_optimality_gap, exact rational objective) - not exactly optimal: plans whose real costs differ by less than "
     "that granularity may be ranked either way. The direct oracle checks the same bound against a long-double brute-force optimum",
+    "C++ int / long long overflow freedom of the run IS a theorem, stated with C07 (Properties/C07.lean imports this file, so it cannot be "
+    "restated here): transp_run_no_fault (checked twin assignC of increaseCapacity(); solve(); toAssignment() = unbounded model on assignDomOk: "
+    "check() passes, no negative stored cost, costBoundOk, totals <= 2^61, assertions on or off, and the problem handed to solve() is WellFormed "
+    "in the sense of ssp_optimal) and transp_costs_fit (the float-cost constructor as reoptimize uses it lands in that domain); signed stored "
+    "costs beyond INT_MAX/4 do overflow in updateTree (transp_signed_costs_overflow, C07) and are outside that domain",
     "what remains per-instance rather than universal: the tie between model and C++ (correspondence stream: scaled costs compared "
-    "entry by entry, `fdomain` computed independently on both sides), C++ int/long long overflow freedom (UBSan on the explored "
-    "domain; the theorems are over unbounded Int), and that the compiler evaluates the float code as written (x86-64 SSE2, "
+    "entry by entry, `fdomain` computed independently on both sides), and that the compiler evaluates the float code as written (x86-64 SSE2, "
     "FLT_EVAL_METHOD 0, no fast-math) - supported by the bit-for-bit agreement of the scaled costs on all generated families",
 ]
 ASSUMPTIONS = [
